@@ -268,8 +268,10 @@ def check_C14(tier_):
         sig = "cycle-closed-by-0x%02x" % r.get("cycle_op", 0) if r.get("cycle") else "leak-without-cycle"
         return sig, "%s [%s]" % (f["why"], job_brief(f["job"]) if f.get("job") else ""), {"record": r, "job": f.get("job")}
     add_hist(res, st, "C14", "leak", desc)
+    add_mc(res, tier_, ["MC_Heap"])
     res.assumptions = ["live heap measured by a counting global allocator in the harness process, single-threaded, after one warm-up generation per protocol",
-                       "reference cycles are detected by the hook by walking the Rc graph from stack and memo roots after every event"]
+                       "reference cycles are detected by the hook by walking the Rc graph from stack and memo roots after every event",
+                       "Heap.tla (cells with identity, strong edges; NoCycle and Unshared for all opcode sequences up to 6 over the aliasing-relevant subset) is bound to the code by the per-run check that no two stack slots share a cell"]
     return res
 
 CHECKS.update({"C07": check_C07, "C08": check_C08, "C09": check_C09, "C12": check_C12, "C14": check_C14})
